@@ -138,3 +138,51 @@ Proof.
   apply andb_prop in H. destruct H as [H1 H2]. split; [|now apply IH].
   destruct o; cbn in *; auto; discriminate.
 Qed.
+
+(* ---- agent level: which features is sigma_inv made of? ---- *)
+(* (dimension, features chosen since the matrix was last initialised, oldest first) *)
+Definition seg_step {T} (g : nat * list (list T)) (o : @op T) : nat * list (list T) :=
+  match o with
+  | Act v => (fst g, snd g ++ [v])
+  | MutHook new => (layer_numel new, [])
+  | _ => g
+  end.
+Definition segment {T} (ly : layer) (ops : list (@op T)) : nat * list (list T) :=
+  fold_left seg_step ops (layer_numel ly, []).
+Definition no_resize {T} (o : @op T) : bool := match o with Resize _ => false | _ => true end.
+
+Section Segment.
+Context {T : Type}.
+Variables (zero one : T) (add sub mul div : T -> T -> T) (rr : bool).
+Notation run := (@run T zero one add sub mul div rr).
+Notation step := (@step T zero one add sub mul div rr).
+Notation sigma_run := (@sigma_run T zero one add sub mul div).
+
+Lemma run_segment_gen : forall (ops : list (@op T)) (s : @bstate T) (g : nat * list (list T)),
+  forallb no_resize ops = true ->
+  sig s = sigma_run (lam s) (fst g) (snd g) ->
+  lam (run s ops) = lam s /\
+  sig (run s ops) = sigma_run (lam s) (fst (fold_left seg_step ops g)) (snd (fold_left seg_step ops g)).
+Proof.
+  induction ops as [|o ops IH]; intros s g Hnr Hs; cbn [Model.run fold_left] in *; [now split|].
+  apply andb_prop in Hnr. destruct Hnr as [Ho Hnr].
+  assert (lam (step s o) = lam s /\
+          sig (step s o) = sigma_run (lam s) (fst (seg_step g o)) (snd (seg_step g o))) as [Hl Hsig].
+  { destruct o; cbn [Model.step seg_step lam sig fst snd init_params] in *; try (now split); try discriminate.
+    - split; auto. unfold Model.sigma_run in *. rewrite fold_left_app. cbn [fold_left]. now rewrite Hs.
+  }
+  specialize (IH (step s o) (seg_step g o) Hnr). rewrite Hl in IH.
+  destruct (IH Hsig) as [H1 H2]. split; auto.
+Qed.
+
+(* after construction and any history without the private resize helper, sigma_inv is exactly the
+   Sherman–Morrison run over the features chosen since the last initialisation, in the current dimension *)
+Lemma agent_sigma_is_run l ly (ops : list (@op T)) :
+  forallb no_resize ops = true ->
+  sig (run (init_params zero one div l ly) ops) =
+  sigma_run l (fst (segment ly ops)) (snd (segment ly ops)).
+Proof.
+  intros H. destruct (run_segment_gen ops (init_params zero one div l ly) (layer_numel ly, []) H) as [_ E];
+    [reflexivity|]. exact E.
+Qed.
+End Segment.
